@@ -26,7 +26,7 @@ RULE = ('One case = a generated chart with contracts reading __old__, history st
         'Non-trivial = distinct (chart, k, method) where at k a delayed event was pending, a history memory differed from its '
         'default, or a live __old__ snapshot existed.')
 ASSUMPTIONS = ['context values are picklable (module-level functions, ints, lists)', 'snapshots are taken at macro-step boundaries only']
-REQUIRED_COUNTERS = ['snapshots_compared', 'steps_compared_after_snapshot', 'snapshots_with_pending_delayed_event',
+REQUIRED_COUNTERS = ['snapshots_with_running_clock', 'snapshots_compared', 'steps_compared_after_snapshot', 'snapshots_with_pending_delayed_event',
                      'snapshots_with_live_old', 'snapshots_with_history_memory', 'pickle_snapshots', 'deepcopy_snapshots',
                      'snapshots_with_bound_and_property', 'old_reads_after_restore']
 TIERS = dict(quick=dict(steps=24, ks=4, gen=dict(max_states=10, max_depth=4, max_trans=12)),
@@ -110,8 +110,17 @@ def peer_chart():
     return sc
 
 
+class Src:
+    """Scripted replacement of sismic.clock.clock.time (module attribute, interposed from outside)."""
+    now = 1000.0
+
+    def __call__(self):
+        return Src.now
+
+
 class World:
     """The object graph that is snapshotted as a whole."""
+    running = False
 
     def __init__(self, ch, coder, with_peers):
         self.sc, _ = build.build_api(ch, coder=coder)
@@ -144,6 +153,7 @@ def snapshot(world, method):
     w = World.__new__(World)
     w.it, w.peer, w.prop = it, peer, prop
     w.sc = it.statechart
+    w.running = world.running
     return w
 
 
@@ -161,6 +171,8 @@ def apply(world, op, k):
         it.queue(*objs)
         return None
     if op[0] == 'clock':
+        if world.running:
+            return None         # real time is advanced once for all worlds by the driver (the clocks are started)
         it.clock.time += op[1]
         if world.peer is not None:
             world.peer.clock.time += op[1]
@@ -208,6 +220,10 @@ def run_case(acc, rnd, tier, case):
     nsteps = sum(1 for op in script if op[0] == 'step')
     dg = chart_digest(ch)
     wit = dict(chart=ch, script=script, with_peers=with_peers)
+    running = rnd.random() < 0.25
+    if running:
+        acc.count('cases_with_running_clock')
+        return running_clock_case(acc, rnd, tier, ch, coder, with_peers, script, nsteps, dg, wit)
     # control run (never snapshotted), also tells what is pending at each boundary
     ctrl = World(ch, coder, with_peers)
     ctrl_obs = []
@@ -294,3 +310,64 @@ def describe(a, b):
             nm = names[min(i, len(names) - 1)]
             return '%s: %r vs %r' % (nm, str(x)[:300], str(y)[:300])
     return 'lengths differ'
+
+
+def running_clock_case(acc, rnd, tier, ch, coder, with_peers, script, nsteps, dg, wit):
+    """Same comparison with started clocks (speed 2) over a scripted real-time source: control, original and restored are
+    driven simultaneously (they share the time source), one snapshot boundary per run."""
+    import sismic.clock.clock as clockmod
+    old = clockmod.time
+    clockmod.time = Src()
+    T = TIERS[tier]
+    try:
+        ks = list(range(1, nsteps))
+        rnd.shuffle(ks)
+        for kb in ks[:max(2, min(T['ks'], 6))]:
+            method = rnd.choice(('pickle', 'deepcopy'))
+            Src.now = 1000.0
+            worlds = []
+            for _ in range(2):
+                w = World(ch, coder, with_peers)
+                w.running = True
+                w.it.clock.speed = 2
+                w.it.clock.start()
+                if w.peer is not None:
+                    w.peer.clock.start()
+                worlds.append(w)
+            ctrl, orig = worlds
+            restored = None
+            k = 0
+            for op in script:
+                if op[0] == 'clock':
+                    Src.now += op[1]
+                    continue
+                if op[0] == 'step' and k == kb and restored is None:
+                    try:
+                        restored = snapshot(orig, method)
+                    except Exception as e:      # noqa
+                        acc.violation('C18:snapshot-raised', '%s at boundary %d (running clock) raised %s: %s' %
+                                      (method, kb, type(e).__name__, str(e)[:200]), dict(wit, k=kb, method=method))
+                        return
+                oc = apply(ctrl, op, k)
+                oo = apply(orig, op, k)
+                orr = apply(restored, op, k) if restored is not None else None
+                if op[0] == 'step':
+                    if oo != oc:
+                        acc.violation('C18:snapshot-disturbed-original', '%s at boundary %d with a started clock: the original differs '
+                                      'from a run that was never snapshotted at step %d: %s' % (method, kb, k, describe(oc, oo)),
+                                      dict(wit, k=kb, method=method, step=k, running_clock=True))
+                        return
+                    if orr is not None and orr != oo:
+                        acc.violation('C18:restored-differs', '%s at boundary %d with a started clock: restored differs from the '
+                                      'original at step %d: %s' % (method, kb, k, describe(oo, orr)),
+                                      dict(wit, k=kb, method=method, step=k, running_clock=True))
+                        return
+                    if orr is not None:
+                        acc.count('steps_compared_after_snapshot')
+                    k += 1
+            acc.count('snapshots_compared')
+            acc.count('snapshots_with_running_clock')
+            acc.count(method + '_snapshots')
+            acc.nontrivial((dg, kb, method, 'running'), cls=method)
+    finally:
+        clockmod.time = old
